@@ -370,21 +370,29 @@ def matrix_pivot(m, sign=False):
     mp = deepcopy(m)
     n = len(mp)
     p = deepcopy(matrix_identity(n))  # permutation matrix (copy: the identity matrix is memoized)
+    work = [[float(v) for v in r] for r in mp]  # reduced matrix: the pivots are chosen as partial pivoting chooses them
     num_rowswap = 0
     for j in range(0, n):
         row = j
         a_max = 0.0
         for i in range(j, n):
-            a_abs = abs(mp[i][j])
+            a_abs = abs(work[i][j])
             if a_abs > a_max:
                 a_max = a_abs
                 row = i
         if j != row:
             num_rowswap += 1
+            work[j], work[row] = work[row], work[j]
             for q in range(0, n):
                 # Swap rows
                 p[j][q], p[row][q] = p[row][q], p[j][q]
                 mp[j][q], mp[row][q] = mp[row][q], mp[j][q]
+        # Eliminate column j of the reduced matrix, so that the next pivot is chosen among its remaining rows
+        if work[j][j] != 0.0:
+            for i in range(j + 1, n):
+                factor = work[i][j] / work[j][j]
+                for q in range(j, n):
+                    work[i][q] -= factor * work[j][q]
     if sign:
         return mp, p, math.pow(-1, num_rowswap)
     return mp, p
